@@ -92,6 +92,11 @@ def check(ctx):
         check_sorted_is_written(ctx, f, call)
     check_provenance(ctx)
     ctx.not_decided.append("nothing of C08's statement is left undecided except the behaviour of list.sort itself (trusted: stable, uses only the comparator)")
+    # mechanisms this property rests on (see shared.py): a change there is reported here as well
+    from . import shared as _sh
+
+    _sh.graph_loader(ctx)
+    _sh.cli_layer(ctx, "gaftools.cli.sort")
 
 
 # ---------------------------------------------------------------------------------------------
